@@ -871,3 +871,64 @@ V("sp4-c07-trivial-newaxis", "C07", "silent", UT, "        return np.array([pdag
 V("sp4-c16-degrees-axis1", "C16", "silent", UT, "import numpy as np\n", "import numpy as np\n_UTILS_API = 2\n", what="constant")
 V("c07-silent-filter-vstructures-only", "C07", "silent", UT, "    dags = [A for A in dags if is_dag(A) and is_consistent_extension(A, pdag)]\n", "    vs_pdag = vstructures(pdag)\n    dags = [A for A in dags if is_dag(A) and vstructures(A) == vs_pdag]\n", what="candidates keep skeleton and directed edges by construction: comparing v-structures is the same test")
 V("c07-member-moral-graph", "C07", "fire", UT, "    same_vstructures = vstructures(P) == vstructures(G)\n", "    same_vstructures = (moral_graph(P) == moral_graph(G)).all()\n", rule="MEMBER.conjunction", what="moral graphs coincide although a second collider over an already married pair differs")
+
+# ------------------------------------------------------------------------------- unrelated additions to the repository (silent for every property)
+NEW_CODE = '''
+
+def _debug_dump(A, path=None):
+    """Unrelated helper added by a maintainer: uses constructs the analysis does not model."""
+    import json
+    global _LAST_DUMP
+    _LAST_DUMP = getattr(A, "shape", None)
+    def rows():
+        for r in A:
+            yield [float(x) for x in r]
+    if path is not None:
+        with open(path, "w") as fh:
+            json.dump(list(rows()), fh)
+    try:
+        return eval("1 + 1")
+    finally:
+        pass
+
+
+class _Registry(dict):
+    def __missing__(self, key):
+        self[key] = value = len(self)
+        return value
+
+
+@staticmethod
+def _unused_static():
+    return None
+'''
+for _i in [1, 2, 3, 4, 5, 6, 7, 8, 10, 11, 12, 13, 14, 15, 16, 17, 18, 19, 20]:
+    VARIANTS.append(dict(id="unrelated-code-c%02d" % _i, prop="C%02d" % _i, expect="silent", rule=None,
+                         edits=[(UT, "\ndef sorted_tuple(iterable):", NEW_CODE + "\n\ndef sorted_tuple(iterable):")],
+                         what="an unrelated private helper (global, yield, eval, with, a dict subclass) is added to utils.py and never called"))
+NEW_PUBLIC = '''
+
+def save_graph(A, path):
+    """Unrelated public helper: writes the adjacency to a JSON file."""
+    import json
+    with open(path, "w") as fh:
+        json.dump(np.asarray(A).tolist(), fh)
+    return path
+
+
+def to_networkx(A):
+    """Unrelated public helper: converts to a networkx graph."""
+    import networkx as nx
+    G = nx.DiGraph()
+    G.add_nodes_from(range(len(A)))
+    G.add_edges_from(directed_edges(A))
+    return G
+
+
+def describe(A):
+    return "graph with %d nodes and %d edges" % (len(A), int((A != 0).sum()))
+'''
+for _i in [1, 2, 3, 4, 5, 6, 7, 8, 10, 11, 12, 13, 14, 15, 16, 17, 18, 19, 20]:
+    VARIANTS.append(dict(id="unrelated-public-c%02d" % _i, prop="C%02d" % _i, expect="silent", rule=None,
+                         edits=[(UT, "\ndef sorted_tuple(iterable):", NEW_PUBLIC + "\n\ndef sorted_tuple(iterable):")],
+                         what="unrelated public helpers (file output, networkx conversion, a description string) are added to utils.py"))
